@@ -230,6 +230,9 @@ func (r *Run) obligation(class, label, site, status string, model map[string]*Te
 			v = &Violation{Harness: r.harness, Class: class, Label: label, Site: site,
 				Model: modelStrings(model, ex), Choices: append([]ChoiceRec{}, ex.choices...),
 				Decisions: append([]int{}, ex.trace...), Stack: ex.where()}
+			if debugTrace {
+				v.Stack += "\n        " + strings.Join(ex.dlog, "\n        ")
+			}
 			r.violations[key] = v
 		} else if len(v.Alts) < 6 {
 			v.Alts = append(v.Alts, AltModel{Model: modelStrings(model, ex), Choices: append([]ChoiceRec{}, ex.choices...)})
